@@ -42,7 +42,7 @@ try:
         desc = ''
         if ok:
             out = os.path.join(scratch, 'o.json')
-            env = dict(os.environ, RC_PARAMS='seed=%d max_success=%d' % (m.get('seed', 1), m.get('cases', cases)), ASAN_OPTIONS='detect_leaks=0', VERIF_KNOWN=','.join(known))
+            env = dict(os.environ, RC_PARAMS='seed=%d max_success=%d' % (m.get('seed', 1), m.get('cases', cases)), ASAN_OPTIONS='detect_leaks=0:max_allocation_size_mb=1024', VERIF_KNOWN=','.join(known))
             p = subprocess.run([binary, '--out', out, '--faildir', scratch], env=env, stdout=subprocess.PIPE, stderr=subprocess.STDOUT, text=True, errors='replace')
             try:
                 d = json.load(open(out))
